@@ -469,6 +469,141 @@ fn roundtrip_records(rep: &mut Report, g: &SlateGen, rng: &mut Rng, st: &mut Fie
 	}
 }
 
+/// Slates the wallet really holds at the end of an exchange: finalized (S3) slates of two-wallet payments with a
+/// plain, a height-locked and a no-recent-duplicate kernel. The kernel is not carried by any encoding: the decoder
+/// rebuilds it from the slate's fields, and what it rebuilds must be the kernel of the transaction that was encoded.
+fn real_finalized_slates(work: &str) -> Vec<(u8, Result<Slate, String>)> {
+	let dir = format!("{}/kernels", work);
+	std::thread::spawn(move || {
+		use crate::world::World;
+		use grin_wallet_libwallet::InitTxArgs;
+		let mut w = World::two(&dir);
+		let _ = w.mine_n(Some(0), 6);
+		let _ = w.mine_n(None, 3);
+		let _ = w.wallets[0].refresh();
+		let mut v = vec![];
+		for feat in [0u8, 2, 3].iter() {
+			let r = (|| -> Result<Slate, String> {
+				let e = |x: grin_wallet_libwallet::Error| format!("{:?}", x);
+				let mut s1 = w.wallets[0].init_send(InitTxArgs { amount: 2_000_000_000, minimum_confirmations: 1, selection_strategy_is_use_all: false, ..Default::default() }).map_err(e)?;
+				if *feat != 0 {
+					// (the slate's kernel feature fields are set the way a counterparty's software would: in the V4 JSON)
+					let mut j: Value = serde_json::from_str(&serde_json::to_string(&s1).map_err(|x| format!("{}", x))?).map_err(|x| format!("{}", x))?;
+					j["feat"] = json!(*feat);
+					j["feat_args"] = json!({"lock_hgt": 3});
+					let v4: SlateV4 = serde_json::from_value(j).map_err(|x| format!("v4 json: {}", x))?;
+					s1 = Slate::from(v4);
+				}
+				w.wallets[0].lock_outputs(&s1).map_err(e)?;
+				let s2 = w.wallets[1].receive(&s1, None).map_err(e)?;
+				let s3 = w.wallets[0].finalize(&s2).map_err(e)?;
+				let _ = w.wallets[0].cancel(None, Some(s1.id));
+				let _ = w.wallets[1].cancel(None, Some(s1.id));
+				Ok(s3)
+			})();
+			v.push((*feat, r));
+		}
+		v
+	})
+	.join()
+	.unwrap_or_default()
+}
+
+/// A slate whose transaction stays within the maximum transaction weight can be written as a slatepack - and what
+/// was written can be read back. Judged with the small limits of the test chain type (maximum weight 226), where
+/// a transaction of ten outputs is still valid, in a thread of its own (the chain type is thread-local).
+fn slatepacks_of_heavy_slates(seed: u64, n: usize) -> Vec<(String, String, Value)> {
+	std::thread::spawn(move || {
+		global::set_local_chain_type(global::ChainTypes::AutomatedTesting);
+		let mut rng = Rng::new(seed);
+		let g = SlateGen::new(&mut rng);
+		let mut st = FieldStats::default();
+		let mut out = vec![];
+		let mut done = 0;
+		let mut tries = 0;
+		while done < n && tries < 40 * n {
+			tries += 1;
+			let (v4, s) = g.slate(&mut rng, &mut st, 10);
+			let (ins, outs) = match s.tx.as_ref() {
+				Some(t) => (t.inputs().len() as u64, t.outputs().len() as u64),
+				None => continue,
+			};
+			if outs < 7 || grin_core::core::Transaction::weight_by_iok(ins, outs, 1) > global::max_tx_weight() {
+				continue;
+			}
+			done += 1;
+			for form in 0..3u8 {
+				let name = ["slatepack-armored-plain", "slatepack-binary-plain", "slatepack-json-plain"][form as usize];
+				let r = match via_slatepack(&s, form, None, &[], None) {
+					Ok(_) => "ok".to_string(),
+					Err(e) => e,
+				};
+				out.push((name.to_string(), r, json!({"slate_v4": case_json(&v4), "path": name, "chain_type": "AutomatedTesting", "inputs": ins, "outputs": outs})));
+			}
+		}
+		out
+	})
+	.join()
+	.unwrap_or_default()
+}
+
+fn judge_real_kernels(rep: &mut Report, g: &SlateGen, rng: &mut Rng, work: &str) {
+	for (feat, r) in real_finalized_slates(work) {
+		let s3 = match r {
+			Ok(s) => s,
+			Err(e) => {
+				rep.count(&format!("real-kernel:feat={}:exchange-refused", feat));
+				if std::env::var("GWV_DEBUG").is_ok() {
+					eprintln!("real-kernel feat {} refused: {}", feat, e);
+				}
+				continue;
+			}
+		};
+		let k0 = match s3.tx.as_ref().and_then(|t| t.kernels().get(0).cloned()) {
+			Some(k) => k,
+			None => continue,
+		};
+		let rec = g.address(rng);
+		let paths: Vec<(&str, Dec)> = vec![
+			("json-slate", via_json_slate(&s3)),
+			("json-versioned", via_json_versioned(&s3)),
+			("v4-binary", via_bin(&s3)),
+			("slatepack-armored-plain", via_slatepack(&s3, 0, None, &[], None).map(|x| x.0)),
+			("slatepack-binary-plain", via_slatepack(&s3, 1, None, &[], None).map(|x| x.0)),
+			("slatepack-json-plain", via_slatepack(&s3, 2, None, &[], None).map(|x| x.0)),
+			("slatepack-armored-encrypted", via_slatepack(&s3, 0, Some(rec.1.clone()), &[rec.clone()], Some(0)).map(|x| x.0)),
+		];
+		for (name, d) in paths {
+			rep.eval();
+			let case = json!({"real_finalized_slate": serde_json::to_value(&s3).unwrap_or(Value::Null), "path": name, "kernel_features": feat});
+			match d {
+				Err(e) => rep.violation(&format!("C08|{}|refused|finalized-slate(feat={})", name, feat), &e, case),
+				Ok(d) => match d.tx.as_ref().and_then(|t| t.kernels().get(0).cloned()) {
+					None => rep.violation(&format!("C08|{}|tx-kernel-missing|finalized-slate(feat={})", name, feat), "the decoded slate's transaction has no kernel", case),
+					Some(k) => {
+						let mut what = vec![];
+						if k.features != k0.features {
+							what.push("features");
+						}
+						if k.excess != k0.excess {
+							what.push("excess");
+						}
+						if k.excess_sig != k0.excess_sig {
+							what.push("signature");
+						}
+						if what.is_empty() {
+							rep.count(&format!("real-kernel:feat={}:rebuilt-equal", feat));
+							rep.distinct(&("real-kernel", feat, name));
+						} else {
+							rep.violation(&format!("C08|{}|tx-kernel:{}|finalized-slate(feat={})", name, what.join("+"), feat), &format!("the kernel rebuilt by the decoder differs from the kernel of the encoded transaction in {:?}: encoded {:?}, decoded {:?}", what, k0.features, k.features), case);
+						}
+					}
+				},
+			}
+		}
+	}
+}
+
 pub fn run(a: &Args) {
 	// codec checks use main-net size limits (thread-local chain type)
 	global::set_local_chain_type(global::ChainTypes::Mainnet);
@@ -507,6 +642,19 @@ pub fn run(a: &Args) {
 		roundtrip_slate(&mut rep, &g, &mut rng, &mut st, max_coms);
 		if i % 4 == 0 {
 			roundtrip_records(&mut rep, &g, &mut rng, &mut st);
+		}
+	}
+	if a.shard % 4 == 0 {
+		judge_real_kernels(&mut rep, &g, &mut rng, &a.work);
+	}
+	if a.shard % 4 == 1 {
+		for (name, r, case) in slatepacks_of_heavy_slates(rng.next(), if a.thorough() { 40 } else { 8 }) {
+			rep.eval();
+			if r == "ok" {
+				rep.count("heavy-slate-within-the-weight-limit:slatepack-read-back");
+			} else {
+				rep.violation(&format!("C08|{}|refused|slate-within-the-maximum-weight", name), &format!("a slate whose transaction is within the maximum weight was written as a slatepack that cannot be read back: {}", r), case);
+			}
 		}
 	}
 	for (k, v) in st.set.iter() {
